@@ -60,13 +60,14 @@ func Spec() *run.Spec {
 	return &run.Spec{
 		ID: "C13", Level: "exploration",
 		Rule: "one case = one concurrent history on a fresh graph.Instance: graph shape (the DESIGN graph p1..p3 -> M1,M2 -> T or a random DAG of 2-5 parameters " +
-			"(string/int/file), 3-6 join nodes, 2-4 text/binary producers), 2-8 clients x 3-8 operations drawn from UpdateParameter (unique values; a few with an " +
+			"(string/int/file/Vector3Array), 3-6 join nodes, 2-4 text/binary producers plus a real stl.Artifact over a mesh that aliases each vector parameter's slice), 2-8 clients x 3-8 operations drawn from UpdateParameter (unique values; a few with an " +
 			"undecodable payload), ParameterData, Artifact+Write; seeded pauses inside the node processors and between client operations. " +
 			"non-trivial = the recorded history has operations of different clients that overlap in time (by the logical clock) and contains at least one update and one artifact read; " +
 			"signature = graph shape/parameter kinds/depth/producers x clients x operation mix bucket.",
 		Assumptions: []string{
 			"linearizability is decided per history by porcupine v1.3.0 (CheckOperationsVerbose, 20 s timeout; Unknown -> inconclusive, never held) against the sequential model: Update sets a value (an undecodable payload returns an error and changes nothing), ParameterData returns the current value's message, Artifact returns the reference rendering of the current state",
-			"the operation interval of an artifact read ends after Artifact.Write returned (what an HTTP client of the edit server observes)",
+			"the operation interval of an artifact read ends after Artifact.Write returned (what an HTTP client of the edit server observes); Write is called after a seeded pause, outside the lock, so an artifact that is not a value (it aliases data a later update rewrites) shows as a mixture or as a state that was never current in the interval",
+			"vector parameters: a value is n elements (id,j,n) with a unique id, lengths 1-6; rejected vector updates are well-formed JSON whose leading elements decode and a later element has a string for a number (model: error, no change)",
 			"the clock of a history is one process-wide atomic counter read immediately before the call and immediately after the return; the wall clock is never read by the oracle",
 			"node processors are harness-defined pure functions of their inputs that pause (runtime.Gosched / microsecond sleeps, seeded) between input reads; their only shared state is an atomic execution counter, so every race report implicates polyform",
 			"only the three entry points the property names are called concurrently (no graph editing while generating)",
@@ -75,22 +76,27 @@ func Spec() *run.Spec {
 		},
 		MinNontrivial: map[string]int{"quick": 400, "thorough": 5000},
 		MinObserved: map[string]int64{
-			"histories_with_overlap":   total/2 + 1, // DESIGN §6: overlapping operations in > 50 % of the histories
-			"porcupine_ok":             total * 8 / 10,
-			"event_orders":             total / 2,
-			"artifact_reads":           total,
-			"updates":                  total,
-			"parameter_reads":          total / 2,
-			"artifact_evaluations":     total, // processor executions observed: artifacts were recomputed, not served stale from a cache by luck
-			"artifacts_after_update":   total / 2,
-			"client_counts":            6,
-			"race_gomaxprocs":          3,
-			"graph_shapes":             3,
-			"two_route_graphs":         total / 2,
-			"rejected_updates":         total / 20,
-			"param_kinds":              3,
-			"binary_artifact_reads":    total / 50,
-			"histories_lock_contended": total / 4,
+			"histories_with_overlap":            total/2 + 1, // DESIGN §6: overlapping operations in > 50 % of the histories
+			"porcupine_ok":                      total * 8 / 10,
+			"event_orders":                      total / 2,
+			"artifact_reads":                    total,
+			"updates":                           total,
+			"parameter_reads":                   total / 2,
+			"artifact_evaluations":              total, // processor executions observed: artifacts were recomputed, not served stale from a cache by luck
+			"artifacts_after_update":            total / 2,
+			"client_counts":                     6,
+			"race_gomaxprocs":                   3,
+			"graph_shapes":                      3,
+			"two_route_graphs":                  total / 2,
+			"rejected_updates":                  total / 20,
+			"param_kinds":                       4,
+			"stl_artifact_reads":                total / 4,
+			"stl_artifacts_written_after_pause": total / 8,
+			"vec_updates":                       total / 2,
+			"vec_update_lengths":                6,
+			"rejected_vec_updates_with_decodable_prefix": total / 20,
+			"binary_artifact_reads":                      total / 50,
+			"histories_lock_contended":                   total / 4,
 		},
 		Phases: []run.Phase{
 			{Name: "linearize", Cases: linCases, Run: history, Batch: 10, CPUBudgetS: 60, StallViolation: true,
@@ -121,6 +127,8 @@ type planOp struct {
 	Val   string // display value of an update
 	Bad   bool   // update with an undecodable payload
 	Pre   int32  // pause before the call: <0 = -k yields, >0 microseconds
+	Mid   int32  // artifact reads: pause between Artifact() returning and Write (same encoding)
+	BadAt int    // vector parameters: index of the element of a rejected update that has the wrong type
 }
 
 // recorded operation
@@ -181,6 +189,9 @@ func model(d *graphDesc, init []string) porcupine.Model {
 				return out.Val == string(encodeParam(d.Params[in.Param].Kind, vals[in.Param])), st
 			default:
 				vals := strings.Split(st, sep)
+				if pr := d.Producers[in.Prod]; pr.Stl {
+					return out.Val == vals[pr.Param], st
+				}
 				return out.Val == d.render(vals, d.Producers[in.Prod].Node), st
 			}
 		},
@@ -246,13 +257,39 @@ func history(c *run.Ctx) run.Result {
 					op.Val = fmt.Sprint(1000*(ci+1) + j)
 				case pFile:
 					op.Val = fmt.Sprintf("f%dn%d", ci, j)
+				case pVec:
+					// lengths 1..6: shorter, equal and longer than whatever is current, so that
+					// some values fit the capacity of the array they replace
+					op.Val = fmt.Sprintf("v%dx%d", 100*(ci+1)+j, 1+r.Intn(6))
 				}
 				// an undecodable payload (File parameters accept any bytes)
 				op.Bad = d.Params[op.Param].Kind != pFile && r.Intn(9) == 0
+				if d.Params[op.Param].Kind == pVec {
+					// well-formed JSON of the right shape whose leading elements decode and
+					// a later element has the wrong type
+					op.Bad = r.Intn(5) == 0
+					_, n := parseVec(op.Val)
+					if op.Bad && n < 2 {
+						op.Val = fmt.Sprintf("v%dx%d", 100*(ci+1)+j, 2+r.Intn(5))
+						_, n = parseVec(op.Val)
+					}
+					op.BadAt = 1 + r.Intn(n)
+					if op.BadAt >= n {
+						op.BadAt = n - 1
+					}
+				}
 			case x < updWeight+readWeight:
 				op.Kind = opRead
 			default:
 				op.Kind = opArtifact
+				// a response that is written a little after the artifact was obtained
+				switch y := r.Intn(10); {
+				case y < 2:
+				case y < 4:
+					op.Mid = -int32(1 + r.Intn(5))
+				default:
+					op.Mid = int32(5 + r.Intn(80*intensity))
+				}
 			}
 			mix[op.Kind]++
 			switch x := r.Intn(10); {
@@ -305,6 +342,9 @@ func history(c *run.Ctx) run.Result {
 					payload := encodeParam(d.Params[op.Param].Kind, op.Val)
 					if op.Bad {
 						payload = []byte(`{"not": "a ` + pKindName[d.Params[op.Param].Kind] + `"`)
+						if d.Params[op.Param].Kind == pVec {
+							payload = vecJSON(op.Val, op.BadAt)
+						}
 					}
 					rec.Arg = fmt.Sprintf("p%d=%s", op.Param, payload)
 					id := lv.paramIDs[op.Param]
@@ -328,12 +368,24 @@ func history(c *run.Ctx) run.Result {
 					rec.Call = atomic.AddInt64(&clock, 1)
 					pn = run.Try(func() {
 						a := lv.g.Artifact(name)
+						switch {
+						case op.Mid < 0:
+							for i := int32(0); i < -op.Mid; i++ {
+								runtime.Gosched()
+							}
+						case op.Mid > 0:
+							time.Sleep(time.Duration(op.Mid) * time.Microsecond)
+						}
 						if err := a.Write(&buf); err != nil {
 							rec.err = true
 						}
 					})
 					rec.Ret = atomic.AddInt64(&clock, 1)
-					rec.Out = buf.String()
+					if d.Producers[op.Prod].Stl {
+						rec.Out = decodeSTL(buf.Bytes())
+					} else {
+						rec.Out = buf.String()
+					}
 				}
 				if pn != nil {
 					rec.panicV, rec.stack, rec.site = pn.Value, pn.Stack, pn.Site
@@ -431,8 +483,16 @@ func history(c *run.Ctx) run.Result {
 		case opUpdate:
 			if op.plan.Bad {
 				res.Count("rejected_updates", 1)
+				if d.Params[op.plan.Param].Kind == pVec {
+					res.Count("rejected_vec_updates_with_decodable_prefix", 1)
+				}
 			} else {
 				seenUpdate = true
+				if d.Params[op.plan.Param].Kind == pVec {
+					_, n := parseVec(op.plan.Val)
+					res.Count("vec_updates", 1)
+					res.SetAdd("vec_update_lengths", fmt.Sprint(n))
+				}
 			}
 		case opArtifact:
 			distinctArt[op.Arg+"="+op.Out] = true
@@ -441,6 +501,12 @@ func history(c *run.Ctx) run.Result {
 			}
 			if d.Producers[op.plan.Prod].Binary {
 				res.Count("binary_artifact_reads", 1)
+			}
+			if d.Producers[op.plan.Prod].Stl {
+				res.Count("stl_artifact_reads", 1)
+				if op.plan.Mid != 0 {
+					res.Count("stl_artifacts_written_after_pause", 1)
+				}
 			}
 		}
 	}
@@ -492,6 +558,14 @@ func history(c *run.Ctx) run.Result {
 		}
 		if op.err {
 			res.Violate("artifact-write-error", "graph.Instance.Artifact", "concurrent clients", fmt.Sprintf("client %d: Write of artifact %s failed", op.Client, op.Arg), wit())
+			continue
+		}
+		if d.Producers[op.plan.Prod].Stl {
+			res.Count("stl_artifacts_decoded", 1)
+			if strings.HasPrefix(op.Out, "mix") || op.Out == "empty" {
+				res.Violate("torn-snapshot", "graph.Instance.Artifact", "concurrent clients",
+					fmt.Sprintf("artifact %s obtained by client %d (clock %d..%d) and written after the lock was released decodes to %q: the facets are not the elements of ONE value of parameter p%d (a value is n elements (id,j,n)) — the returned artifact is not a value usable after unlock", op.Arg, op.Client, op.Call, op.Ret, op.Out, d.Producers[op.plan.Prod].Param), wit())
+			}
 			continue
 		}
 		m := matchers[op.plan.Prod]
